@@ -3,7 +3,7 @@
 //@ replace: xcm_attr_get
 //@ pre-unwind: strcmp.0:9
 //@ props: C14
-//@ expect: postcondition>=4 canary=3
+//@ expect: postcondition>=5 canary=3
 #include "_unit.h"
 void harness(void)
 {
